@@ -129,15 +129,16 @@ ezc3d::DataNS::Frame &ezc3d::DataNS::Data::frame_nonConst(size_t idx)
 
 void ezc3d::DataNS::Data::frame(const ezc3d::DataNS::Frame &frame, size_t idx)
 {
-    if (idx == SIZE_MAX){
-        // Copy the content, not the shared pointers, so the stored frame is independent of the caller's
-        _frames.push_back(ezc3d::DataNS::Frame());
-        _frames.back().add(frame);
-    }
+    // Copy the content first: the stored frame must be independent of the caller's, and the
+    // frame received may be one of this data set (the array of frames may be reallocated below)
+    ezc3d::DataNS::Frame copy;
+    copy.add(frame);
+    if (idx == SIZE_MAX)
+        _frames.push_back(copy);
     else {
         if (idx >= _frames.size())
             _frames.resize(idx+1);
-        _frames[idx].add(frame);
+        _frames[idx] = copy;
     }
 }
 
